@@ -62,6 +62,7 @@ package nack
 //@   ensures complete: forall x uint16 :: missing(s, skipLastN, x) ==> (exists j int :: 0 <= j && j < len(result) && result[j] == x)
 //@   ensures ascending: forall j int, k int :: 0 <= j && j < k && k < len(result) ==> s.end - result[j] > s.end - result[k]
 //@   ensures bounded: len(result) <= int(s.size)
+//@   ensures in_scratch: len(result) > 0 ==> sameblock(result, missingPacketSeqNums)
 //@   loop 1 invariant range: i - s.lastConsecutive - 1 <= until - s.lastConsecutive
 //@   loop 1 invariant cbound: 0 <= c && c <= int(i - s.lastConsecutive - 1)
 //@   loop 1 invariant sound: forall j int :: 0 <= j && j < c ==> missingPacketSeqNums[j] - s.lastConsecutive - 1 < i - s.lastConsecutive - 1 && !bit(s, missingPacketSeqNums[j])
@@ -138,3 +139,31 @@ package nack
 //@   ensures same_length: result2 == nil ==> result0 == callres("reader.Read", 0)
 //@   ensures accounted_once: calls("add") <= 1 && (result2 == nil ==> calls("add") == 1)
 //@   ensures log_inv: inv(receiveLog)
+//@
+//@ # ---- the generator's tick loop (property C03, safety part of C02)
+//@ # every bound stream's receive log satisfies its invariant and fits the scratch slices (size n.size)
+//@ pred genInv(n *GeneratorInterceptor) := n.receiveLogs != nil && n.nackCountLogs != nil
+//@     && (forall s uint32 :: has(n.receiveLogs, s) ==> n.receiveLogs[s] != nil && inv(n.receiveLogs[s]) && n.receiveLogs[s].size <= n.size)
+//@
+//@ func (*GeneratorInterceptor).loop
+//@   requires logs: genInv(n)
+//@   modifies *
+//@   loop 1 invariant logs: genInv(n) && len(missingPacketSeqNums) == int(n.size) && len(filteredMissingPacket) == int(n.size)
+//@        && fresh(missingPacketSeqNums) && fresh(filteredMissingPacket) && !sameblock(missingPacketSeqNums, filteredMissingPacket)
+//@   loop 1 opt noautoframe
+//@   loop 2 invariant logs: genInv(n) && len(missingPacketSeqNums) == int(n.size) && len(filteredMissingPacket) == int(n.size)
+//@        && fresh(missingPacketSeqNums) && fresh(filteredMissingPacket) && !sameblock(missingPacketSeqNums, filteredMissingPacket)
+//@   loop 2 opt noautoframe
+//@   loop 3 invariant filtered: 0 <= count && count <= rangeindex + 1
+//@   # per-packet limit: a number is only requested while its count (after this tick's increment) is within the limit,
+//@   # and every missing number has been counted
+//@   loop 3 invariant distinct: forall a int, b int :: 0 <= a && a < b && b < len(missing) ==> missing[a] != missing[b]
+//@   loop 3 invariant from_missing: forall j int :: 0 <= j && j < count ==> exists k int :: 0 <= k && k <= rangeindex && filteredMissingPacket[j] == missing[k]
+//@   loop 3 invariant within_limit: forall j int :: 0 <= j && j < count ==> has(n.nackCountLogs[ssrc], filteredMissingPacket[j])
+//@        && n.nackCountLogs[ssrc][filteredMissingPacket[j]] <= n.maxNacksPerPacket
+//@   loop 3 invariant counted: n.nackCountLogs[ssrc] != nil && (forall k int :: 0 <= k && k <= rangeindex ==> has(n.nackCountLogs[ssrc], missing[k]))
+//@   loop 3 opt noautoframe
+//@   # pruning keeps the counts of every number that is still missing (so its budget does not restart)
+//@   loop 4 invariant still_counted: n.maxNacksPerPacket > 0 ==> n.nackCountLogs[ssrc] != nil && (forall k int :: 0 <= k && k < len(missing) ==> has(n.nackCountLogs[ssrc], missing[k]))
+//@   loop 4 opt noautoframe
+//@   loop 5 opt noautoframe
